@@ -18,6 +18,10 @@
 #include <glm/gtx/norm.hpp>
 #include <glm/gtx/transform.hpp>
 #include <glm/gtx/common.hpp>
+#include <glm/gtx/matrix_query.hpp>
+#include <glm/gtx/matrix_operation.hpp>
+#include <glm/gtx/matrix_factorisation.hpp>
+#include <glm/gtx/component_wise.hpp>
 #include <cstdio>
 #include <cstdint>
 #include <cstring>
@@ -77,6 +81,12 @@ int main(int argc, char** argv)
 			glm::mat4x3 b43(M); glm::mat3x4 b34(M); glm::mat2x4 b24(a43); glm::mat4x2 b42(a34); glm::mat2x3 b23(a42); glm::mat3x2 b32(a24); glm::mat2 b22(a43);
 			for (int cc = 0; cc < 4; ++cc) { pv(b43[cc]); pf(b42[cc].x); pf(b42[cc].y); } for (int cc = 0; cc < 3; ++cc) { pv(b34[cc]); pf(b32[cc].x); pf(b32[cc].y); } for (int cc = 0; cc < 2; ++cc) { pv(b24[cc]); pv(b23[cc]); pf(b22[cc].x); pf(b22[cc].y); }
 			pm(glm::mat4(a, b, c, d, b, c, d, a, c, d, a, b, d, a, b, c)); pm(glm::mat4(a)); pm(glm::mat3(v3, w3, v3)); pv(glm::vec4(glm::vec2(v), glm::vec2(w))); pv(glm::vec4(a, w3)); pv(glm::vec4(glm::vec2(v), c, d)); pv(glm::vec3(v)); })
+		// functions written as loops over length_t (int by default, size_t under GLM_FORCE_SIZE_T_LENGTH): index arithmetic such as i - 1 must not depend on its signedness
+		OP("length_t_loops", { glm::mat4 I4(1.f); glm::mat4 Z4(0.f); glm::mat4 J4(1.f); J4[0][0] = 0.f; glm::mat3 I3(1.f); glm::mat3 K3(1.f); K3[2][1] = 0.5f; glm::mat2 I2(1.f); glm::mat4x3 R43(1.f); glm::mat3x4 R34(1.f); glm::dmat3 D3(1.0); glm::mat3 O3 = glm::mat3_cast(glm::normalize(q + glm::quat::wxyz(0.1f, 0.f, 0.f, 0.f)));
+			std::printf(" %d%d%d%d%d%d%d%d%d", (int)glm::isIdentity(I4, 1e-5f), (int)glm::isIdentity(J4, 1e-5f), (int)glm::isIdentity(I3, 1e-5f), (int)glm::isIdentity(K3, 1e-5f), (int)glm::isIdentity(I2, 1e-5f), (int)glm::isIdentity(R43, 1e-5f), (int)glm::isIdentity(R34, 1e-5f), (int)glm::isIdentity(D3, 1e-9), (int)glm::isIdentity(M, 1e-5f));
+			std::printf(" %d%d%d%d%d%d%d%d", (int)glm::isNull(Z4, 1e-5f), (int)glm::isNull(I4, 1e-5f), (int)glm::isNull(M3, 1e-5f), (int)glm::isNormalized(I4, 1e-5f), (int)glm::isNormalized(O3, 1e-4f), (int)glm::isNormalized(M3, 1e-5f), (int)glm::isOrthogonal(O3, 1e-4f), (int)glm::isOrthogonal(K3, 1e-4f));
+			pf(glm::compAdd(v)); pf(glm::compMul(v)); pf(glm::compMin(v)); pf(glm::compMax(v)); pf(glm::compAdd(v3)); pf(glm::compMax(v3)); pm(glm::diagonal4x4(v)); pm(glm::diagonal3x3(v3)); pm(glm::adjugate(M3)); pm(glm::adjugate(M));
+			glm::mat3 Q3; glm::mat3 R3; glm::qr_decompose(M3 + glm::mat3(3.f), Q3, R3); pm(Q3); pm(R3); })
 		OP("ctor", { glm::vec4 z(1.f); glm::vec4 y(v3, 2.f); glm::mat3 m(2.f); glm::quat r = glm::quat::wxyz(1.f, 0.f, 0.f, 0.f); pv(z + y); pm(m); pq(r); std::printf(" %d %d %d", (int)z.length(), (int)m.length(), (int)r.length()); })
 	}
 	return 0;
